@@ -534,7 +534,10 @@ def find(req):
         checks = [lambda: finding("F25-7z-empty-file-taken-for-directory")]
     elif "_build_file_list" in ob or "_extract_files_from_folder" in ob or "_parse_" in ob or "_7z" in ob:
         checks = [check_7z_bytes, lambda: matrix(lambda l: l.startswith("7z"))]
-    elif "plain-tar-detected-as-tar" in ob:
+    elif "outside-F26" in ob:
+        # the clause that EXCLUDES the recorded class F26: its own witness does not count
+        checks = [check_detect, lambda: matrix(lambda l: l.startswith("tar"))]
+    elif ob.endswith("plain-tar-detected-as-tar"):
         checks = [lambda: finding("F26-plain-tar-first-name-starts-with-another-magic")]
     elif "empty-tar" in ob:
         checks = [lambda: finding("F27-empty-plain-tar-not-recognised")]
